@@ -7,7 +7,8 @@ EXPLANATION = ("C04: (R1) who-may-write analysis of SourceMap.tokens over every 
                "adjust_mappings, no public mutable access, struct literals only in new); (R2) every writer sorts before it "
                "returns (must-pass-through on the CFG); (R3) the sort keys and the lookup key are the same (dst_line, "
                "dst_col) tuple and the query is (line, col); (R4) greatest_lower_bound has the binary-search + walk-back-to-"
-               "first-equal shape; (R6) iteration and get_token read the same vector by index; (R7) panic-freedom of lookup.")
+               "first-equal shape; (R6) iteration and get_token read the same vector by index; (R7) panic-freedom of lookup."
+               " (R8) lookup on an index map and through the DecodedMap dispatch: section by greatest_lower_bound, section-relative position, same query; (R0/R6) the crate's iterators implement `next` only.")
 NOT_DECIDED = "std's binary_search/sort contracts (trusted); nothing else value-level."
 
 
